@@ -354,13 +354,13 @@ def run(rep, tier, seed, keep=False):
         # customised tables
         calls_list = insert_calls(tier, rng)
         r, dump = gen(wd, 'cust', 'standard', calls_list, ['.', '*', '+', 'or', '->', '**', '~'], ['-', 'not', '~'], ['!', '~'], 2, 1,
-                      ['atom'] if quick else ['atom', 'par', 'idx'])
+                      ['atom'] if quick else ['atom', 'par'])
         rep.tlc('Grammar/G+M insert_operator tables', r)
         by_calls = {}
         for st in tlaval.parse_dump(dump):
             if st['out']['st'] == 'ok' and st['out']['ok'] and len(st['toks']) >= 3:
                 by_calls.setdefault(calls_list[st['tid'] - 1], []).append(st)
-        n3 = replay_states(rep, dump, 'standard', calls_list, engines, rng, 'custom', nsub=0, keep_frac=0.15 if quick else 0.6)
+        n3 = replay_states(rep, dump, 'standard', calls_list, engines, rng, 'custom', nsub=0, keep_frac=0.15 if quick else 0.35)
         # histories on ONE factory: create(), insert_operator(...), create() again ... every engine follows the table it was created from
         nhist = 0
         for calls in [c for c in calls_list if len(c) >= 1 and c in by_calls][:(25 if quick else 200)]:
